@@ -92,11 +92,63 @@ fn size_from(t: &mut Tape<'_>, max: usize, marks: &[usize]) -> usize {
 // ---------------------------------------------------------------------------------------
 // FFT family
 // ---------------------------------------------------------------------------------------
+/// every constructible size of the domain kind up to `max` (walks the {2^a q^b} lattice through the public API)
+fn lattice_sizes<F: FftField, D: EvaluationDomain<F>>(max: usize) -> Vec<usize> {
+    let mut out = Vec::new();
+    let mut s = 1usize;
+    while s <= max {
+        match D::compute_size_of_domain(s) {
+            Some(n) if n <= max => {
+                out.push(n);
+                s = n + 1;
+            },
+            _ => break,
+        }
+    }
+    out
+}
+
+/// coefficient vectors with structure: dense, monomials, sparse, polynomials in x^m, a zero residue class
+fn structured_coeffs<F: PrimeField>(t: &mut Tape<'_>, s: &mut Stream, len: usize) -> (Vec<F>, &'static str) {
+    if len == 0 {
+        return (Vec::new(), "empty");
+    }
+    match t.weighted(&[5, 2, 2, 2, 2]) {
+        0 => (s.fields(len), "dense"),
+        1 => {
+            let mut v = vec![F::zero(); len];
+            let k = t.below(len as u64) as usize;
+            v[k] = s.field::<F>() + F::one();
+            if t.bool() {
+                v[0] += F::one();
+            }
+            (v, "monomial")
+        },
+        2 => ((0..len).map(|_| if s.next() % 8 == 0 { s.field() } else { F::zero() }).collect(), "sparse"),
+        3 => {
+            let m = [2usize, 3, 4, 5, 6, 7, 9, 16, 25][t.idx(9)];
+            ((0..len).map(|i| if i % m == 0 { s.field() } else { F::zero() }).collect(), "poly-in-x^m")
+        },
+        _ => {
+            // everything except one residue class modulo m is filled
+            let m = [2usize, 3, 4, 5, 8, 9, 18, 25, 36][t.idx(9)];
+            let r = t.below(m as u64) as usize;
+            ((0..len).map(|i| if i % m == r { F::zero() } else { s.field::<F>() + F::one() }).collect(), "zero-residue-class")
+        },
+    }
+}
+
 fn fft_generic<F: FftField + PrimeField, D: EvaluationDomain<F>>(t: &mut Tape<'_>, max_size: usize, what: &str) -> Outcome {
-    let req = match t.weighted(&[1, 3, 3]) {
+    let req = match t.weighted(&[1, 3, 3, 5]) {
         0 => t.below(64) as usize,
         1 => 1usize << t.below((max_size.trailing_zeros() + 1) as u64),
-        _ => t.below(max_size as u64 + 1) as usize,
+        2 => t.below(max_size as u64 + 1) as usize,
+        _ => {
+            // uniform over the constructible sizes (so that sizes with a large odd part and little 2-adicity,
+            // and every size in between, are as likely as powers of two)
+            let l = lattice_sizes::<F, D>(max_size);
+            if l.is_empty() { 1 } else { l[t.idx(l.len())] }
+        },
     };
     let mut s = Stream::new(t.u64());
     let dom = match D::new(req) {
@@ -118,7 +170,7 @@ fn fft_generic<F: FftField + PrimeField, D: EvaluationDomain<F>>(t: &mut Tape<'_
         2 => (n / 4 + t.below(3) as usize).saturating_sub(1).min(n),
         _ => t.below(n as u64 + 1) as usize,
     };
-    let coeffs: Vec<F> = s.fields(len);
+    let (coeffs, shape): (Vec<F>, &str) = structured_coeffs(t, &mut s, len);
     let mode = t.below(6);
     let mut out = Vec::new();
     match mode {
@@ -148,7 +200,7 @@ fn fft_generic<F: FftField + PrimeField, D: EvaluationDomain<F>>(t: &mut Tape<'_
     }
     Outcome {
         bytes: out,
-        desc: format!("{}: requested size {} -> domain {} coset={} input len {} mode {}", what, req, n, coset, len, mode),
+        desc: format!("{}: requested size {} -> domain {} coset={} input len {} ({}) mode {}", what, req, n, coset, len, shape, mode),
         above_threshold: n >= 1 << 10 || (mode == 5 && len >= 1024) || (mode == 3 && n >= 128),
         size: n,
     }
@@ -164,6 +216,14 @@ fn op_fft_fr(t: &mut Tape<'_>) -> Outcome {
 fn op_fft_mixed(t: &mut Tape<'_>) -> Outcome {
     use ark_test_curves::bn384_small_two_adicity::Fr;
     fft_generic::<Fr, MixedRadixEvaluationDomain<Fr>>(t, 4608, "mixed/bn384.Fr")
+}
+fn op_fft_mixed_mnt4753(t: &mut Tape<'_>) -> Outcome {
+    use ark_test_curves::mnt4_753::Fr;
+    fft_generic::<Fr, MixedRadixEvaluationDomain<Fr>>(t, 1600, "mixed/mnt4_753.Fr")
+}
+fn op_fft_mixed_mnt4298(t: &mut Tape<'_>) -> Outcome {
+    use ark_mnt4_298::Fq;
+    fft_generic::<Fq, MixedRadixEvaluationDomain<Fq>>(t, 3136, "mixed/mnt4_298.Fq")
 }
 fn op_fft_general(t: &mut Tape<'_>) -> Outcome {
     use ark_test_curves::bn384_small_two_adicity::Fr;
@@ -550,11 +610,13 @@ fn op_mle(t: &mut Tape<'_>) -> Outcome {
 
 pub fn ops() -> Vec<Op> {
     vec![
-        Op { name: "fft/radix2.Goldilocks", tape_len: 12, cases_quick: 240, cases_thorough: 3000, run: op_fft_gold },
-        Op { name: "fft/radix2.bls12_381.Fr", tape_len: 12, cases_quick: 160, cases_thorough: 2000, run: op_fft_fr },
-        Op { name: "fft/mixed.bn384.Fr", tape_len: 12, cases_quick: 160, cases_thorough: 2000, run: op_fft_mixed },
-        Op { name: "fft/general.bn384.Fr", tape_len: 12, cases_quick: 120, cases_thorough: 1500, run: op_fft_general },
-        Op { name: "fft/general.bls12_381.Fr", tape_len: 12, cases_quick: 120, cases_thorough: 1500, run: op_fft_general_fr },
+        Op { name: "fft/radix2.Goldilocks", tape_len: 14, cases_quick: 240, cases_thorough: 3000, run: op_fft_gold },
+        Op { name: "fft/radix2.bls12_381.Fr", tape_len: 14, cases_quick: 160, cases_thorough: 2000, run: op_fft_fr },
+        Op { name: "fft/mixed.bn384.Fr", tape_len: 14, cases_quick: 160, cases_thorough: 2000, run: op_fft_mixed },
+        Op { name: "fft/mixed.mnt4_753.Fr", tape_len: 14, cases_quick: 100, cases_thorough: 1000, run: op_fft_mixed_mnt4753 },
+        Op { name: "fft/mixed.mnt4_298.Fq", tape_len: 14, cases_quick: 120, cases_thorough: 1200, run: op_fft_mixed_mnt4298 },
+        Op { name: "fft/general.bn384.Fr", tape_len: 14, cases_quick: 120, cases_thorough: 1500, run: op_fft_general },
+        Op { name: "fft/general.bls12_381.Fr", tape_len: 14, cases_quick: 120, cases_thorough: 1500, run: op_fft_general_fr },
         Op { name: "fft/points.bls12_381.G1", tape_len: 8, cases_quick: 12, cases_thorough: 300, run: op_fft_points },
         Op { name: "poly/bls12_381.Fr", tape_len: 16, cases_quick: 240, cases_thorough: 3000, run: op_poly_fr },
         Op { name: "poly/Goldilocks", tape_len: 16, cases_quick: 240, cases_thorough: 3000, run: op_poly_gold },
